@@ -426,6 +426,57 @@ def oracle(ctx):
             if warned or not float((X - ref1).abs().max()) <= 1e-5 * float(ref1.abs().max()):
                 ctx.fail("oracle", "solve:%s:1x1" % meth, {"A_batch": list(ba1), "ncols": nc1, "E": withE, "options": "defaults"},
                          {"warned": warned, "max_error": float((X - ref1).abs().max())}, "silent convergence of a 1 x 1 system")
+    # documented options of the Krylov methods that the defaults never exercise: preconditioners (cg: precond; bicgstab: precond_l,
+    # precond_r), resid_calc_every, posdef; larger systems with a spread spectrum so that the periodic exact recomputation of the
+    # residual runs several times (round-4 seeds C01/11, C04/11, C04/12: the right-preconditioned update, the iterate used for the
+    # recomputation).  Silence still means: the returned block solves the system
+    gk = torch.Generator().manual_seed(ctx.seed + 31)
+    for nk in (6, 24):
+        Qk, _ = torch.linalg.qr(torch.randn(nk, nk, dtype=torch.float64, generator=gk))
+        ev = torch.logspace(0, 2.3, nk, dtype=torch.float64)
+        Ak = (Qk * ev) @ Qk.T
+        Ak = (Ak + Ak.T) / 2
+        An_ = Ak + 0.2 * torch.randn(nk, nk, dtype=torch.float64, generator=gk)
+        Bk = torch.randn(nk, 2, dtype=torch.float64, generator=gk)
+        jac_pre = xt.LinearOperator.m(torch.diag(1.0 / torch.diag(Ak)), is_hermitian=True)
+        gen_pre = xt.LinearOperator.m(torch.linalg.inv(Ak + 0.3 * torch.diag(torch.diag(Ak))), is_hermitian=False)
+        opt_sets = [("cg", Ak, True, dict(precond=jac_pre)), ("cg", Ak, True, dict(resid_calc_every=3)), ("cg", Ak, True, dict(posdef=True)),
+                    ("bicgstab", An_, False, dict(precond_l=jac_pre)), ("bicgstab", An_, False, dict(precond_r=jac_pre)),
+                    ("bicgstab", An_, False, dict(precond_r=gen_pre)), ("bicgstab", An_, False, dict(precond_l=gen_pre, precond_r=jac_pre)),
+                    ("bicgstab", An_, False, dict(resid_calc_every=3)), ("bicgstab", An_, False, dict(resid_calc_every=1000)),
+                    ("bicgstab", An_, False, dict())]
+        for meth, Am_, hz, extra in opt_sets:
+            desc = {k: (v if not isinstance(v, xt.LinearOperator) else "<operator>") for k, v in extra.items()}
+            try:
+                X, warned = run(lambda: solve(xt.LinearOperator.m(Am_, is_hermitian=hz), Bk, method=meth, rtol=1e-11, atol=1e-13, max_niter=40 * nk, **extra))
+            except Exception as e:
+                ctx.fail("oracle", "solve:%s:options:exception" % meth, {"n": nk, "options": desc}, repr(e)[:300], "a solution")
+                continue
+            ctx.count(("krylov-options", meth, nk, tuple(sorted(desc))))
+            refk = torch.linalg.solve(Am_, Bk)
+            errk = float((X - refk).abs().max() / refk.abs().max())
+            if not warned and not errk <= 1e-7:
+                ctx.fail("oracle", "solve:%s:options:silent-but-wrong" % meth, {"n": nk, "options": desc, "rtol": 1e-11, "condition_number": float(torch.linalg.cond(Am_))},
+                         {"relative_error": errk}, "silent return => the system is solved (<= 1e-7 with rtol 1e-11)")
+            if warned and float(torch.linalg.cond(Am_)) <= 300.0:
+                ctx.fail("oracle", "solve:%s:options:warns-on-wellconditioned" % meth, {"n": nk, "options": desc}, {"relative_error": errk}, "silent convergence")
+    # one operator object through a history: solve, backward, in-place update of its matrix, solve again (round-4 seed C01/12:
+    # the temporary substitution of the operator's parameters was never undone, so the second solve used the old matrix)
+    for meth in ("cg", "bicgstab", "custom_exactsolve"):
+        Mh = (Az.clone() + 0.0).requires_grad_()
+        oph = xt.LinearOperator.m(Mh, is_hermitian=True)
+        Bh = torch.randn(6, 1, dtype=torch.float64, generator=gz)
+        kwh = {} if meth == "custom_exactsolve" else dict(rtol=1e-11, atol=1e-13)
+        X1, _ = run(lambda: solve(oph, Bh, method=meth, **kwh))
+        X1.sum().backward()
+        with torch.no_grad():
+            Mh.add_(torch.eye(6, dtype=torch.float64))
+        X2, warned2 = run(lambda: solve(oph, Bh, method=meth, **kwh))
+        ctx.count(("operator-history", meth))
+        ref2 = torch.linalg.solve(Mh.detach(), Bh)
+        if warned2 or not float((X2.detach() - ref2).abs().max()) <= 1e-7:
+            ctx.fail("oracle", "solve:%s:operator-reused-after-backward-and-update" % meth, {"sequence": ["solve", "backward", "A += I in place", "solve"]},
+                     {"warned": warned2, "error_vs_current_matrix": float((X2.detach() - ref2).abs().max())}, "the solution of the CURRENT system")
     # normal-equation fallback with a complex shift (the adjoint needs conj(E))
     g = torch.Generator().manual_seed(11)
     Ac = 0.3 * torch.randn(4, 4, dtype=torch.complex128, generator=g) + 2.0 * torch.eye(4, dtype=torch.complex128)
